@@ -13,6 +13,12 @@ repo = os.environ.get("VERIF_REPO", "/repo")
 tmp = tempfile.mkdtemp(prefix="vbounded-")
 try:
     ov = {"Replace": {os.path.join(repo, pkg, "zz_verif_bounded_test.go"): os.path.abspath(harness)}}
+    # a self-test mutant of /repo's sources (vcheck -overlay) is seen by the stand-in as well
+    if os.environ.get("VERIF_OVERLAY"):
+        for k, v in json.load(open(os.environ["VERIF_OVERLAY"])).items():
+            if repo != "/repo" and k.startswith("/repo/"):
+                k = repo + k[len("/repo"):]
+            ov["Replace"][k] = v
     ovp = os.path.join(tmp, "ov.json")
     json.dump(ov, open(ovp, "w"))
     env = dict(os.environ, GOFLAGS="-mod=mod", GOPROXY="off", GOSUMDB="off", GOTOOLCHAIN="local", VERIF_TIER=tier)
